@@ -467,6 +467,55 @@ func (si *schemaInfo) fromGo(mi *msgInfo, p reflect.Value) *V {
 	return out
 }
 
+// foreignNorm: decoded values only. Inside a message of a type protobuf-go decodes itself (well-known types), nil vs
+// empty for a singular implicit-presence bytes field is protobuf-go's representation (its table decoder stores nil for an
+// empty payload), not the generated code's: rendered nil on both sides (driver: foreign_norm). In place; returns v.
+func (si *schemaInfo) foreignNorm(mi *msgInfo, v *V) *V {
+	if v == nil || v.K != 'm' {
+		return v
+	}
+	for i, fi := range mi.fields {
+		if i >= len(v.L) {
+			break
+		}
+		fd := fi.fd
+		e := v.L[i]
+		if fd.IsMap() && fd.MapValue().Kind() != protoreflect.MessageKind {
+			continue
+		}
+		if fd.Kind() == protoreflect.MessageKind {
+			var cmi *msgInfo
+			if fd.IsMap() {
+				cmi = si.byName[fd.MapValue().Message().FullName()]
+			} else {
+				cmi = si.byName[fd.Message().FullName()]
+			}
+			if cmi == nil {
+				continue
+			}
+			switch e.K {
+			case 'm':
+				si.foreignNorm(cmi, e)
+			case 's':
+				si.foreignNorm(cmi, e.P)
+			case 'l':
+				for _, x := range e.L {
+					si.foreignNorm(cmi, x)
+				}
+			case 'p':
+				for j := 1; j < len(e.L); j += 2 {
+					si.foreignNorm(cmi, e.L[j])
+				}
+			}
+			continue
+		}
+		if !mi.pulsar && fd.Kind() == protoreflect.BytesKind && !fd.IsList() && !fd.IsMap() && fi.oneofIdx < 0 && !fd.HasPresence() && e.K == 'b' && len(e.B) == 0 {
+			v.L[i] = vNil
+		}
+	}
+	return v
+}
+
 // ---- V <-> dynamicpb (the reference implementation holding "the same value") ----------------
 func scalarToPR(fd protoreflect.FieldDescriptor, v *V) protoreflect.Value {
 	switch fd.Kind() {
